@@ -1426,6 +1426,8 @@ func (fr *Frame) callSiteObligations(rel string, fn *ssa.Function, args []Val, s
 		vc.curClauseProps = cl.Props
 		vc.Oblige("callsite", fmt.Sprintf("%s#%d.%s", fn.Name(), vc.callCount, cl.Label), pos, st, g, cl.Src)
 		vc.curClauseProps = nil
+		// proved as an obligation of its own, then available to what follows (a cut point)
+		st.Assume(g)
 	}
 }
 
